@@ -2,9 +2,15 @@ package rig
 
 import (
 	"bytes"
+	"go/ast"
+	"go/parser"
+	"go/token"
+	"os"
+	"path/filepath"
 	"runtime"
 	"strconv"
 	"strings"
+	"sync"
 )
 
 // GState is one goroutine of a stop-the-world snapshot.
@@ -44,6 +50,77 @@ var blockedStates = map[string]bool{
 // timed SDK waits: a goroutine parked in one of these selects has a timer
 // pending, so the system is not dead yet (60 s send timeout, 5 s close timeout).
 var timedWaitFuncs = []string{"sendRuntimeMessage", "waitWithTimeout"}
+
+// sendTimerFuncs: those of timedWaitFuncs that live in the server (the 60 s send timeout).
+var sendTimerFuncs = []string{"sendRuntimeMessage"}
+
+var timedOnce sync.Once
+
+// loadTimedWaitFuncs finds the functions of the tree under test (VERIF_REPO/atp) that contain a select with a timer
+// case (time.After, time.Tick, a Timer's / Ticker's C), so that renaming or adding one does not turn its timed wait
+// into a "blocked for ever" verdict. The two names known at design time stay in the list.
+func loadTimedWaitFuncs() {
+	repo := os.Getenv("VERIF_REPO")
+	if repo == "" {
+		repo = "/repo"
+	}
+	files, _ := filepath.Glob(filepath.Join(repo, "atp", "*.go"))
+	fset := token.NewFileSet()
+	add := func(list *[]string, name string) {
+		for _, x := range *list {
+			if x == name {
+				return
+			}
+		}
+		*list = append(*list, name)
+	}
+	for _, fn := range files {
+		if strings.HasSuffix(fn, "_test.go") {
+			continue
+		}
+		f, err := parser.ParseFile(fset, fn, nil, 0)
+		if err != nil {
+			continue
+		}
+		for _, d := range f.Decls {
+			fd, ok := d.(*ast.FuncDecl)
+			if !ok || fd.Body == nil {
+				continue
+			}
+			timed := false
+			ast.Inspect(fd.Body, func(n ast.Node) bool {
+				sel, ok := n.(*ast.SelectStmt)
+				if !ok {
+					return true
+				}
+				for _, cl := range sel.Body.List {
+					cc, ok := cl.(*ast.CommClause)
+					if !ok || cc.Comm == nil {
+						continue
+					}
+					ast.Inspect(cc.Comm, func(m ast.Node) bool {
+						if se, ok := m.(*ast.SelectorExpr); ok {
+							if id, ok := se.X.(*ast.Ident); ok && id.Name == "time" && (se.Sel.Name == "After" || se.Sel.Name == "Tick") {
+								timed = true
+							}
+							if se.Sel.Name == "C" {
+								timed = true
+							}
+						}
+						return true
+					})
+				}
+				return true
+			})
+			if timed {
+				add(&timedWaitFuncs, fd.Name.Name)
+				if strings.Contains(filepath.Base(fn), "server") {
+					add(&sendTimerFuncs, fd.Name.Name)
+				}
+			}
+		}
+	}
+}
 
 func TakeSnapshot() *Snapshot {
 	buf := make([]byte, 1<<18)
@@ -121,6 +198,7 @@ type Verdict struct {
 }
 
 func (s *Snapshot) Classify() Verdict {
+	timedOnce.Do(loadTimedWaitFuncs)
 	var v Verdict
 	for _, g := range s.others {
 		blocked := blockedStates[g.State]
@@ -137,15 +215,18 @@ func (s *Snapshot) Classify() Verdict {
 			timed := false
 			if g.State == "select" {
 				for _, f := range timedWaitFuncs {
-					if g.Has(f) {
+					if g.Has("." + f) {
 						timed = true
 					}
 				}
 			}
 			if timed {
 				v.Timed++
-				if g.Has("sendRuntimeMessage") {
-					v.TimedSend++
+				for _, f := range sendTimerFuncs {
+					if g.Has("." + f) {
+						v.TimedSend++
+						break
+					}
 				}
 				v.RunningDescr = append(v.RunningDescr, g.Header+" (timed wait)")
 			} else {
